@@ -475,10 +475,20 @@ def rule_r5(prog, res) -> None:
         res.ok("C10.R5", "no manual range tests", "no ordering comparison against an outer bin edge outside the bin-assignment sites", nontrivial=False)
 
 
+def rule_r6(prog, res) -> None:
+    """the closed side survives copies, selections and sums of a binning (shared with C17.R8): a method that builds a
+    new instance of its own class passes every state-carrying defaulted constructor parameter — `closed` among them"""
+    from . import c17
+    from .common import shared_rule
+
+    shared_rule(res, c17.rule_r8, "C17", "C17.R8", "C10.R6")
+
+
 RULES = [
     ("C10.R1", rule_r1, QUICK),
     ("C10.R2", rule_r2, QUICK),
     ("C10.R3", rule_r3, QUICK),
     ("C10.R4", rule_r4, QUICK),
     ("C10.R5", rule_r5, QUICK),
+    ("C10.R6", rule_r6, QUICK),
 ]
